@@ -34,13 +34,28 @@ _pool = None
 
 
 class Pool:
-    def __init__(self):
+    def __init__(self, intmode=None):
         self.phase = 0
+        self.intmode = intmode            # None | "all" | int seed (per call site coin)
         self.arrays = {}     # key -> list of [obj, original_bytes, phase]
         self.objects = {}
         self.results = []
         self.stats = {"same_object_same_values": 0, "overwritten_in_place": 0, "fresh": 0, "objects_reused": 0,
-                      "results_overwritten": 0}
+                      "results_overwritten": 0, "built_as_integer_arrays": 0}
+
+    def as_int(self, site, a):
+        """integer-dtype spelling of a float64 array whose values are all integers (what `np.array([[0, 0, 0], [1, 0, 0]])`
+        gives a caller who writes whole numbers): the mathematical input is the same"""
+        if self.intmode is None or a.dtype != _np.float64 or a.size == 0:
+            return a
+        if not (_np.all(_np.isfinite(a)) and _np.all(a == _np.round(a)) and _np.all(_np.abs(a) < 2.0 ** 52)):
+            return a
+        if self.intmode != "all":
+            import zlib
+            if zlib.crc32(repr((self.intmode,) + tuple(site[1:])).encode()) % 3 == 0:
+                return a
+        self.stats["built_as_integer_arrays"] += 1
+        return a.astype(_np.int64)
 
     def note_result(self, r, depth=0):
         if isinstance(r, _np.ndarray):
@@ -70,6 +85,10 @@ class Pool:
     def arr(self, site, a):
         if a.dtype == object or a.ndim == 0:
             return a
+        if self.intmode is not None:
+            # integer-dtype runs are single calls, nothing is pooled; only what is handed to the library is respelled: the
+            # adapters' argument copies (`shcopy`) and constructor arguments -- never the arrays the adapter works on itself
+            return self.as_int(site, a) if site[-1] == "cp" else a
         key = (site, a.dtype.str, a.shape)
         want = a.tobytes()
         entries = self.arrays.setdefault(key, [])
@@ -168,6 +187,11 @@ class _ClassProxy:
         cls = self._cls
         if _pool is None:
             return cls(*a, **k)
+        if _pool.intmode is not None:
+            f = sys._getframe(1)
+            site = (f.f_code.co_filename, f.f_lineno, f.f_lasti, "cp")
+            conv = lambda i, x: _pool.as_int(site + (i,), x) if isinstance(x, _np.ndarray) else x
+            return cls(*[conv(i, x) for i, x in enumerate(a)], **{n: conv(n, x) for n, x in k.items()})
         try:
             key = (cls.__module__, cls.__name__, _argkey(a), _argkey(sorted(k.items())))
         except TypeError:
@@ -191,14 +215,15 @@ VALUE_CLASSES = ("Plane", "Polyline", "Line", "Box")
 class scope:
     """with scope(modules) as pool:  pooled construction inside the adapter modules for the duration"""
 
-    def __init__(self, modules, classes=VALUE_CLASSES):
+    def __init__(self, modules, classes=VALUE_CLASSES, intmode=None):
         self.modules = [m for m in modules if m is not None]
-        self.classes = tuple(classes)
+        self.classes = tuple(classes) if intmode is None else VALUE_CLASSES
+        self.intmode = intmode
         self.saved = []
 
     def __enter__(self):
         global _pool
-        _pool = Pool()
+        _pool = Pool(self.intmode)
         proxy = _NpProxy()
         for m in self.modules:
             d = m.__dict__
@@ -215,6 +240,8 @@ class scope:
         import types
         import polliwog
         for mname, m in list(sys.modules.items()):
+            if self.intmode is not None:
+                break
             if m is None or not (mname == "polliwog" or mname.startswith("polliwog.")):
                 continue
             if any(part.startswith("_") or part.startswith("test") for part in mname.split(".")) or not hasattr(m, "__path__"):
@@ -239,11 +266,14 @@ class scope:
         return False
 
 
-def shcopy(x):
+def shcopy(x, keep_dtype=False):
     """the adapters' defensive copy of an argument (`x.copy()`): private outside a pair; inside a pair it is the caller's
-    buffer for that call site, pooled like the arrays the adapter builds"""
+    buffer for that call site, pooled like the arrays the adapter builds; in an integer-dtype run it is respelled as an
+    int64 array when all its values are whole numbers (unless `keep_dtype`: arguments documented as float arrays)"""
     r = x.copy()
     if _pool is None or not isinstance(r, _np.ndarray):
+        return r
+    if keep_dtype and _pool.intmode is not None:
         return r
     f = sys._getframe(1)
     return _pool.arr((f.f_code.co_filename, f.f_lineno, f.f_lasti, "cp"), r)
